@@ -116,15 +116,36 @@ def corrupt(rng, lines, kind, where=None):
     return lines[:i] + ins + lines[i:], kind
 
 
-def wrap_context(rng, lines, bad):
-    """put the erroneous statement `bad` (list of lines) into a nested context"""
-    k = rng.randrange(5)
+_wrap_id = [0]
+
+
+def wrap_once(rng, bad, k):
+    _wrap_id[0] += 1
+    u = _wrap_id[0]
     if k == 0:
-        return lines[:-2] + [".if 1"] + bad + [".endif"] + lines[-2:], "in-taken-if"
+        return [".if 1"] + bad + [".endif"], "taken-if"
     if k == 1:
-        return lines[:-2] + [".if 0", "  .db 9", ".else"] + bad + [".endif"] + lines[-2:], "in-else"
+        return [".if 0", "  .db 9", ".else"] + bad + [".endif"], "else"
     if k == 2:
-        return lines[:-2] + [".macro WRAPM()"] + bad + [".endm", "  WRAPM()"] + lines[-2:], "in-macro"
+        return [".macro WRAPM%d()" % u] + bad + [".endm", "  WRAPM%d()" % u], "macro"
     if k == 3:
-        return lines[:-2] + [".repeat 2"] + bad + [".endr"] + lines[-2:], "in-repeat"
-    return lines[:-2] + bad + lines[-2:], "plain"
+        return [".repeat 2"] + bad + [".endr"], "repeat"
+    if k == 4:
+        return [".ifndef NEVER_DEFINED_NAME_%d" % u] + bad + [".endif"], "taken-ifndef"
+    return [".ifdef NEVER_DEFINED_NAME_%d" % u, "  .db 8", ".else"] + bad + [".endif"], "ifdef-else"
+
+
+def wrap_context(rng, lines, bad):
+    """put the erroneous statement `bad` (list of lines) into 0..3 nested contexts"""
+    depth = rng.choice([0, 1, 1, 2, 2, 3])
+    names = []
+    used_repeat = False
+    for _ in range(depth):
+        k = rng.randrange(6)
+        if k == 3:
+            if used_repeat:       # nested .repeat is documented as an error itself
+                k = 0
+            used_repeat = True
+        bad, nm = wrap_once(rng, bad, k)
+        names.append(nm)
+    return lines[:-2] + bad + lines[-2:], ("in-" + "+".join(reversed(names))) if names else "plain"
